@@ -267,14 +267,59 @@ loop:
 	return r, events, bps
 }
 
-var markRe = regexp.MustCompile(`^\s*fmt\.Print(?:ln|f)\("(p\d+)[ "%\\]`)
+var markRe = regexp.MustCompile(`^\s*fmt\.Print(?:ln|f)\("([pbe]\d+)[ "%\\]`)
 
-// markerLines maps source line → marker label for single-line print statements.
+// markerLines maps source line → marker label for single-line print
+// statements: pN (print statements), bN (end-of-block prints) and eN (function
+// entry markers added by injectEntry). A label carried by several lines is not
+// a marker.
 func markerLines(src string) map[int]string {
 	m := map[int]string{}
+	count := map[string]int{}
 	for i, l := range strings.Split(src, "\n") {
 		if mm := markRe.FindStringSubmatch(l); mm != nil {
 			m[i+1] = mm[1]
+			count[mm[1]]++
+		}
+	}
+	for l, lab := range m {
+		if count[lab] > 1 {
+			delete(m, l)
+		}
+	}
+	return m
+}
+
+var funcRe = regexp.MustCompile(`^func (main|fn\d+)\(.*\{$`)
+
+// injectEntry adds a marker print as first statement of main and of every
+// generated top-level function, so that the calls of a function are visible in
+// the output: a function breakpoint must be reported once per entry marker.
+func injectEntry(src string) string {
+	if !strings.Contains(src, "\t\"fmt\"\n") {
+		return src
+	}
+	var out []string
+	k := 0
+	for _, l := range strings.Split(src, "\n") {
+		out = append(out, l)
+		if funcRe.MatchString(l) {
+			k++
+			out = append(out, fmt.Sprintf("\tfmt.Println(\"e%d\")", k))
+		}
+	}
+	return strings.Join(out, "\n")
+}
+
+// entryLines maps the name of a function whose first statement is an entry
+// marker to the line of that marker.
+func entryLines(src string, marks map[int]string) map[string]int {
+	m := map[string]int{}
+	for i, l := range strings.Split(src, "\n") {
+		if mm := funcRe.FindStringSubmatch(l); mm != nil {
+			if lab, ok := marks[i+2]; ok && lab[0] == 'e' {
+				m[mm[1]] = i + 2
+			}
 		}
 	}
 	return m
@@ -334,6 +379,27 @@ func (c *Case) check() (string, string, map[string]int) {
 			}
 		}
 	}
+	// a function breakpoint stops on the first statement of the function: its
+	// entry marker when there is one
+	entries := entryLines(c.Src, marks)
+	funcsModelled := true
+	for k, f := range c.Funcs {
+		l, ok := entries[f]
+		if !ok {
+			funcsModelled = false
+			continue
+		}
+		if j := len(c.Lines) + k; j < len(bps) {
+			if !bps[j].Valid {
+				return "breakpoint-invalid", fmt.Sprintf("function breakpoint on declared function %s was reported invalid", f), stats
+			}
+			if bps[j].Position.Line != l {
+				return "breakpoint-position", fmt.Sprintf("function breakpoint on %s: position line %d, first statement on line %d", f, bps[j].Position.Line, l), stats
+			}
+			bpLine[l] = true
+			stats["fbp-valid"]++
+		}
+	}
 	labels := map[string]bool{}
 	for l, lab := range marks {
 		if bpLine[l] {
@@ -366,7 +432,7 @@ func (c *Case) check() (string, string, map[string]int) {
 					return "break-tracking", fmt.Sprintf("break-timing: break #%d on line %d (%s) arrived when %d of its markers were already printed", len(gotPer[lab])+1, ev.line, lab, printed), stats
 				}
 				gotPer[lab] = append(gotPer[lab], printed)
-			} else if !bpLine[ev.line] && len(c.Funcs) == 0 {
+			} else if !bpLine[ev.line] && funcsModelled {
 				return "break-tracking", fmt.Sprintf("break-without-breakpoint: break event on line %d where no breakpoint was set", ev.line), stats
 			}
 		case interp.DebugStepInto:
@@ -440,6 +506,7 @@ func config(ctx *vf.Ctx) *progen.Config {
 
 func genCase(t *rapid.T, cfg *progen.Config) *Case {
 	p := progen.Generate(t, cfg)
+	p.Src = injectEntry(p.Src)
 	c := &Case{Src: p.Src}
 	nlines := strings.Count(p.Src, "\n")
 	mainLine := 1
